@@ -673,6 +673,9 @@ class Symex:
             r = self.contains(b, a, node)
             if isinstance(r, bool):
                 return r if opname == "in" else not r
+        if opname in ("is", "is not") and (a is None or b is None) and isinstance(b if a is None else a, Obj) \
+                and (b if a is None else a).attrs.get("_identity"):
+            return opname == "is not"   # a record declared to be a distinct object is not None
         if isinstance(a, Obj) and not (opname in ("is", "is not", "==", "!=") and isinstance(b, Obj)):
             a = a.term
         if isinstance(b, Obj) and not isinstance(a, Obj):
